@@ -143,6 +143,10 @@ def _chart(draw, tier, opts):
         ids.remove("ZZ")  # the writer's default tail id
     if purpose == "write" and "01" in ids and draw(st.booleans()):
         ids.remove("01")  # the writer's default id for unknown samples
+    if purpose != "write" and draw(st.integers(0, 3)) == 0:
+        # ids written in lower case, spelled the same way in the #WAV / #LNOBJ headers and in the note data
+        ids = [i.lower() for i in ids]
+        lnobj = lnobj.lower() if lnobj else lnobj
     n_wav = draw(st.integers(1, max(1, len(ids) - 1)))
     samples = {i: "s%s.wav" % i.lower() for i in ids[:n_wav]}
     if draw(st.booleans()):
